@@ -157,4 +157,15 @@ impl<TS: TimeSource> ClaimTable<TS> {
     }
 }
 
+#[cfg(dswd_vpncloud_verif)]
+impl<TS: TimeSource> ClaimTable<TS> {
+    pub fn verif_claims(&self) -> Vec<(SocketAddr, Range, Time)> {
+        self.claims.iter().map(|e| (e.peer, e.claim, e.timeout)).collect()
+    }
+
+    pub fn verif_cache(&self) -> Vec<(Address, SocketAddr, Time)> {
+        self.cache.iter().map(|(a, v)| (*a, v.peer, v.timeout)).collect()
+    }
+}
+
 // TODO: test
